@@ -566,13 +566,13 @@ theorem stages (cm : Bool) (iters F : Nat) (hF1 : 1 ≤ F) :
 
 /-- `ReadData1` with the concrete sub-loops (incl. `CreateSubSuperInstance` with the regenerated or any other guard), in
 potential form and for any fuel `F` above the stream measure: for every oracle, exchange and working-session files -/
-theorem readData1_okF (o : Oracle) (guard : Option Nat) (cm wsMode : Bool) (iters maxErr : Nat) (s : IS) (F : Nat)
+theorem readData1_okF (o : Oracle) (stay : Bool) (guard : Option Nat) (cm wsMode : Bool) (iters maxErr : Nat) (s : IS) (F : Nat)
     (hm : s.m + 1 ≤ F) :
-    ∃ r, readData1 o guard cm wsMode iters maxErr F s = .ok r ∧ r.s.m ≤ s.m ∧
+    ∃ r, readData1 o stay guard cm wsMode iters maxErr F s = .ok r ∧ r.s.m ≤ s.m ∧
       r.steps + dataPot 22 iters r.s ≤ dataPot 22 iters s + 23 ∧
       r.notCreated ≤ maxErr + 1 ∧ (r.aborted = true ↔ r.notCreated = maxErr + 1) := by
   obtain ⟨ht, hs, hrec⟩ := stages cm iters F (by omega)
-  have hsub := createSubSuper_ok iters guard F (by omega)
+  have hsub := createSubSuper_ok iters stay guard F (by omega)
   have hci := createInstanceSkel_ok (R := iters) (B := F - 1) o hsub ht hs
   have hinst := instOrSkip_ok hci hs (by omega)
   unfold readData1
@@ -588,12 +588,12 @@ theorem readData1_okF (o : Oracle) (guard : Option Nat) (cm wsMode : Bool) (iter
   simp only [dataPot, bigPot] at c ⊢
   omega
 
-theorem readData1_ok (o : Oracle) (guard : Option Nat) (cm wsMode : Bool) (iters maxErr : Nat) (s : IS) :
-    ∃ r, readData1 o guard cm wsMode iters maxErr (s.rest.length + 2) s = .ok r ∧ r.s.m ≤ s.m ∧
+theorem readData1_ok (o : Oracle) (stay : Bool) (guard : Option Nat) (cm wsMode : Bool) (iters maxErr : Nat) (s : IS) :
+    ∃ r, readData1 o stay guard cm wsMode iters maxErr (s.rest.length + 2) s = .ok r ∧ r.s.m ≤ s.m ∧
       r.steps ≤ 54 * (s.rest.length + 1) + iters + 23 ∧
       r.notCreated ≤ maxErr + 1 ∧ (r.aborted = true ↔ r.notCreated = maxErr + 1) := by
   have hm : s.m ≤ s.rest.length + 1 := by unfold IS.m; split <;> omega
-  obtain ⟨r, a, b, c, d, f⟩ := readData1_okF o guard cm wsMode iters maxErr s (s.rest.length + 2) (by omega)
+  obtain ⟨r, a, b, c, d, f⟩ := readData1_okF o stay guard cm wsMode iters maxErr s (s.rest.length + 2) (by omega)
   refine ⟨r, a, b, ?_, d, f⟩
   have h1 := dataPot_le (D := 22) (R := iters) s
   have : 54 * s.m ≤ 54 * (s.rest.length + 1) := by omega
